@@ -9,6 +9,7 @@
 (*  "merit": exact small-integer arrays: [sd, use, g4 (gamma*4), times8    *)
 (*            (times * 8), rows (states+controls, ints), jn, jd (J as a    *)
 (*            fraction), tn, td, diffs: <<<<[n, d]>>>>]                    *)
+(*  "multi": [ntest, ntrain, calls, log]  (multi_run_ode + ResultsLog)     *)
 (***************************************************************************)
 EXTENDS F64, Dyadic, TraceIO, Sequences, FiniteSets
 VARIABLE tid
@@ -85,7 +86,25 @@ JReal(c) ==
       diff == IF BLe(num, lhs) THEN BSub(lhs, num) ELSE BSub(num, lhs)
   IN IF BLe(BMul(diff, P40), BAdd(num, BMul(c.one, BMul(c.one, BMul(c.one, c.one)))))   \* rel 2^-40 + abs 2^-40
      THEN {} ELSE {"figure-of-merit-of-simulation-not-documented-sum"}
-Verdict(c) == IF c.kind = "run" THEN Run(c) ELSE IF c.kind = "merit" THEN Merit(c) ELSE JReal(c)
+\* multi_run_ode: one collector call per starting state - the test states first, then the training states - with
+\* a running index from 0, the simulation of that state under the step count / time limit of ITS group, and the
+\* figure of merit and total time of exactly that simulation.  ResultsLog turns the calls into a table: a header
+\* line first, then per call: figure of merit; total time; number of rows; start state; end state.
+\* calls: <<[index, group ("test"/"train"), same_ode, same_j, same_t (0/1: bit-equal to the direct computation)]>>
+\* log: [header_ok, nlines, rows_ok (0/1 per call: the line holds that call's values)]
+Multi(c) ==
+  LET k == c.ntest + c.ntrain IN
+  (IF Len(c.calls) # k THEN {"multi-run:number-of-collector-calls"} ELSE
+   (IF \E i \in 1..k : c.calls[i].index # i - 1 THEN {"multi-run:index-not-running-from-0"} ELSE {})
+   \cup (IF \E i \in 1..k : c.calls[i].group # (IF i <= c.ntest THEN "test" ELSE "train")
+         THEN {"multi-run:test-states-not-before-training-states"} ELSE {})
+   \cup (IF \E i \in 1..k : c.calls[i].same_ode # 1 THEN {"multi-run:simulation-not-that-of-the-state-and-its-group-budget"} ELSE {})
+   \cup (IF \E i \in 1..k : c.calls[i].same_ode = 1 /\ c.calls[i].same_j # 1 THEN {"multi-run:figure-of-merit-not-of-that-simulation"} ELSE {})
+   \cup (IF \E i \in 1..k : c.calls[i].same_ode = 1 /\ c.calls[i].same_t # 1 THEN {"multi-run:time-not-of-that-simulation"} ELSE {}))
+  \cup (IF c.log.header_ok # 1 \/ c.log.nlines # Len(c.calls) + 1 THEN {"results-log:header-once-then-one-line-per-run"} ELSE {})
+  \cup (IF \E i \in 1..Len(c.log.rows_ok) : c.log.rows_ok[i] # 1 THEN {"results-log:line-not-the-values-of-its-run"} ELSE {})
+Verdict(c) == IF c.kind = "run" THEN Run(c) ELSE IF c.kind = "merit" THEN Merit(c)
+              ELSE IF c.kind = "multi" THEN Multi(c) ELSE JReal(c)
 Init == tid = 0
 Next == /\ tid < NCases /\ tid' = tid + 1
         /\ PrintT(<<"V", Cases[tid'].id, Verdict(Cases[tid'])>>)
